@@ -923,6 +923,40 @@ impl<'c, 'a> Structural<'c, 'a> {
                 self.cx.logr("R8", span, "assert!(c, ..) -> if !(c) { unwinding point }".into());
                 Some(syn::parse_quote!(if !(#c) { __vp_unwind!(); }))
             }
+            "writeln" | "write" => {
+                // R18: `writeln!(w, "lit {} lit {}", a, b)` with plain `{}` placeholders only -> the pieces go through the writer's own
+                // `Write::write_all` (verified, R24: write_all_trait), each argument through fmt_display (std's Display of an unsigned integer
+                // = canonical decimal: assumed), result Ok(())
+                let parts = split_commas(m.tokens.clone());
+                if parts.len() < 2 {
+                    return None;
+                }
+                let w: Expr = syn::parse2(parts[0].clone()).ok()?;
+                let lit: syn::LitStr = syn::parse2(parts[1].clone()).ok()?;
+                let mut fmt = lit.value();
+                if name == "writeln" {
+                    fmt.push('\n');
+                }
+                let args: Vec<Expr> = parts[2..].iter().filter(|p| !p.is_empty()).filter_map(|p| syn::parse2(p.clone()).ok()).collect();
+                let pieces: Vec<&str> = fmt.split("{}").collect();
+                if pieces.iter().any(|p| p.contains('{') || p.contains('}')) || pieces.len() != args.len() + 1 {
+                    self.cx.errors.push(format!("unsupported-construct: {}! with a format string other than plain `{{}}` placeholders", name));
+                    return None;
+                }
+                let mut stmts: Vec<Stmt> = vec![];
+                for (i, piece) in pieces.iter().enumerate() {
+                    if !piece.is_empty() {
+                        let lits: Vec<proc_macro2::Literal> = piece.bytes().map(proc_macro2::Literal::u8_suffixed).collect();
+                        stmts.push(syn::parse_quote!(let _ = #w.write_all_trait(&[#(#lits),*]);));
+                    }
+                    if i < args.len() {
+                        let a = &args[i];
+                        stmts.push(syn::parse_quote!(fmt_display(#w, #a);));
+                    }
+                }
+                self.cx.logr("R18", span, format!("{}!(w, {:?}, ..) -> {} literal piece(s) through Write::write_all of the writer, {} argument(s) through fmt_display", name, fmt, pieces.iter().filter(|p| !p.is_empty()).count(), args.len()));
+                Some(syn::parse_quote!({ #(#stmts)* fmt_ok() }))
+            }
             "debug_assert" => {
                 let n = self.cx.dasserts;
                 self.cx.dasserts += 1;
